@@ -226,6 +226,12 @@ func (ph *ptraceHandle) handle(pid int, wstatus unix.WaitStatus) (status runner.
 
 			default:
 				ph.Handler.Debug("ptrace unexpected trap cause: ", trapCause)
+				// a SIGTRAP without ptrace event after execve is a signal sent to
+				// the program itself, deliver it like any other signal
+				if trapCause == 0 && ph.execved {
+					unix.PtraceCont(pid, int(stopSig))
+					return
+				}
 			}
 			unix.PtraceCont(pid, 0)
 			return
